@@ -95,7 +95,19 @@ def build_consistent(r, case, depth=3, nfiles=None, allow_multi=True, dups=True)
             g2 = r.choice(['', g])
             rel2 = os.path.relpath(p, g2) if g2 else p
             hs2 = r.choice([hs, r.sample(GOOD_HASHES, r.randint(0, 3)), []])
-            manifests[g2][1].append(ET.entry_line(r.choice(['DATA', tag, 'MANIFEST']), rel2, data, hs2))
+            # ... and now and then conflicting: the digests (or the size) of other content, for an equal, overlapping or disjoint hash set
+            k2 = r.random()
+            data2 = data
+            if k2 < 0.3 and data:
+                data2 = bytes([data[0] ^ 1]) + data[1:]
+                if r.random() < 0.5 and hs:
+                    hs2 = sorted(set(r.sample(hs, r.randint(1, len(hs))) + r.sample(GOOD_HASHES, r.randint(0, 2))))
+                    r.shuffle(hs2)
+            elif k2 < 0.36:
+                data2 = data + b'!'
+            if data2 != data:
+                case.meta.setdefault('conflicting_dups', []).append(p)
+            manifests[g2][1].append(ET.entry_line(r.choice(['DATA', tag, 'MANIFEST']), rel2, data2, hs2))
     # extras: DIST, TIMESTAMP, IGNORE of directories / look-alikes / absent paths
     for d in list(manifests):
         if r.random() < 0.3:
